@@ -16,7 +16,11 @@
    and sequences that are injective and keep ':' out of one of the two sides
    (ckey_inj is PROVED from that; without it two pairs can share a key, see
    counter_key_collision).  C17_gen_Execute_bits: the statement closed for one
-   concrete naming.
+   concrete naming.  C17_gen_Execute_run: the square lifted to whole runs — from
+   the empty flow context (Rf_empty) a run of the generated Execute over any
+   history (gen_run) never panics and answers exactly the trace of Model.frun,
+   the function the suites evaluate; _run_bits: closed; gen_run_example: the
+   generated code computing a run.
 
    Not translated: getCooldownDuration (float64; a parameter of the generated
    Execute, its value is only waited for), init (load-time validation: fload),
@@ -209,8 +213,105 @@ Proof.
     split; [exact HR1|reflexivity].
 Qed.
 
+(* ---------------------------------------------------------------- runs *)
+
+(* the premise of the square is satisfiable: the empty flow context is related
+   to the empty store (where Model.frun starts), and the square preserves the
+   relation, so it holds along every run (C17_gen_Execute_run) *)
+Example Rf_empty : Rf [] [].
+Proof. intro k. reflexivity. Qed.
+
+(* A run of the GENERATED code over the events of Model.frun: one flow context
+   threaded through; [FExec p s] calls the generated Execute of the processor
+   named [pname p] with [att p] attempts on a stream whose sequence id is
+   [sname s] (transaction id / body-count fields [aid s], [acnt s]: arbitrary,
+   Execute neither reads nor changes them); [FSkip] touches nothing.  [None] =
+   Execute panicked, returned an error, or answered something that is neither
+   "failed" without action nor "retry" with the retry action. *)
+Definition gen_step (cd : Z -> Z) (att : Z -> Z) (fl : gostring)
+    (aid : Z -> gostring) (acnt : Z -> Z * goerror)
+    (c : ctxmem) (e : fev) : option (ctxmem * fout) :=
+  match e with
+  | FExec p s =>
+      match Gen.Execute cd (Gen.mk_rp (pname p) (att p)) fl
+                        (mk_apistream (aid s) (acnt s) (sname s) c) with
+      | Normal a' (io, ErrNil) =>
+          match out_of io with Some o => Some (as_flow a', o) | None => None end
+      | _ => None
+      end
+  | FSkip _ => Some (c, FOther)
+  end.
+
+Fixpoint gen_run (cd : Z -> Z) (att : Z -> Z) (fl : gostring)
+    (aid : Z -> gostring) (acnt : Z -> Z * goerror)
+    (c : ctxmem) (evs : list fev) : option (ctxmem * list (fev * fout)) :=
+  match evs with
+  | [] => Some (c, [])
+  | e :: r =>
+      match gen_step cd att fl aid acnt c e with
+      | None => None
+      | Some (c', o) =>
+          match gen_run cd att fl aid acnt c' r with
+          | None => None
+          | Some (c'', tr) => Some (c'', (e, o) :: tr)
+          end
+      end
+  end.
+
+Lemma gen_step_sim cd att fl aid acnt c st e :
+  Rf c st ->
+  exists c', gen_step cd att fl aid acnt c e = Some (c', snd (fstep att st e))
+             /\ Rf c' (fst (fstep att st e)).
+Proof.
+  intros HR. destruct e as [p s|s].
+  - destruct (C17_gen_Execute cd (Gen.mk_rp (pname p) (att p)) fl
+                (mk_apistream (aid s) (acnt s) (sname s) c) st p s
+                eq_refl eq_refl HR) as [a' [io [HE [HS _]]]].
+    cbn [Gen.rp_attempts] in HS. cbn [fstep].
+    destruct (fexec (att p) st (p, s)) as [st' o]. destruct HS as [HR' Ho].
+    exists (as_flow a'). unfold gen_step. rewrite HE, Ho. cbn [fst snd].
+    split; [reflexivity|exact HR'].
+  - exists c. cbn [gen_step fstep fst snd]. split; [reflexivity|exact HR].
+Qed.
+
+Lemma gen_run_sim cd att fl aid acnt : forall evs c st acc,
+  Rf c st ->
+  exists c' st' tr,
+    gen_run cd att fl aid acnt c evs = Some (c', tr)
+    /\ fold_left (fstep_acc att) evs (st, acc) = (st', acc ++ tr)
+    /\ Rf c' st'.
+Proof.
+  induction evs as [|e r IH]; intros c st acc HR.
+  - exists c, st, []. cbn [gen_run fold_left]. rewrite app_nil_r. repeat split. exact HR.
+  - destruct (gen_step_sim cd att fl aid acnt c st e HR) as [c1 [H1 HR1]].
+    cbn [gen_run fold_left]. rewrite H1.
+    unfold fstep_acc at 2. cbn [fst snd].
+    destruct (fstep att st e) as [st1 o] eqn:Es. cbn [fst snd] in HR1 |- *.
+    destruct (IH c1 st1 (acc ++ [(e, o)]) HR1) as [c' [st' [tr [Hg [Hf HR']]]]].
+    exists c', st', ((e, o) :: tr). rewrite Hg, Hf, <- app_assoc.
+    repeat split. exact HR'.
+Qed.
+
+(* The square lifted to runs: from the empty flow context the generated code
+   never panics, never returns an error, and its whole run — every answer, in
+   order — is the trace of Model.frun (the function the suites flowproc /
+   flowengine evaluate); the final flow context holds exactly the counters of
+   the model's final store.  For ALL histories, attempts, cool-down oracles. *)
+Corollary C17_gen_Execute_run : forall cd att fl aid acnt evs,
+  exists c,
+    gen_run cd att fl aid acnt [] evs = Some (c, snd (frun att evs))
+    /\ Rf c (fst (frun att evs)).
+Proof.
+  intros cd att fl aid acnt evs.
+  destruct (gen_run_sim cd att fl aid acnt evs [] [] [] Rf_empty)
+    as [c [st' [tr [Hg [Hf HR]]]]].
+  assert (E : frun att evs = (st', tr)) by exact Hf.
+  exists c. rewrite E. cbn [fst snd]. split; assumption.
+Qed.
+
 End Names.
 Print Assumptions C17_gen_Execute.
+Print Assumptions C17_gen_Execute_run.
 
 (* ---------------------------------------------------------------- a concrete naming *)
 
@@ -267,3 +368,25 @@ Proof.
   exact (C17_gen_Execute zbits zbits zbits_inj zbits_inj (or_introl zbits_no_colon)).
 Qed.
 Print Assumptions C17_gen_Execute_bits.
+
+(* the run statement closed for the concrete naming *)
+Corollary C17_gen_Execute_run_bits : forall cd att fl aid acnt evs,
+  exists c,
+    gen_run zbits zbits cd att fl aid acnt [] evs = Some (c, snd (frun att evs))
+    /\ Rf zbits zbits c (fst (frun att evs)).
+Proof.
+  exact (C17_gen_Execute_run zbits zbits zbits_inj zbits_inj (or_introl zbits_no_colon)).
+Qed.
+Print Assumptions C17_gen_Execute_run_bits.
+
+(* the generated code really runs (by computation, not through the corollary):
+   attempts 2, one processor, sequence 7 interleaved with sequence 8 and a
+   response routed elsewhere: retry, retry, other, retry, failed, and the reused
+   id starts from an absent counter *)
+Example gen_run_example :
+  let evs := [FExec 0 7; FExec 0 8; FSkip 7; FExec 0 7; FExec 0 7; FExec 0 7] in
+  option_map (fun r => map (fun x => fout_code (snd x)) (snd r))
+             (gen_run zbits zbits (fun _ => 0) (fun _ => 2) [] zbits (fun _ => (0, ErrNil)) [] evs)
+    = Some [0; 0; 2; 0; 1; 0]
+  /\ map (fun x => fout_code (snd x)) (snd (frun (fun _ => 2) evs)) = [0; 0; 2; 0; 1; 0].
+Proof. vm_compute. split; reflexivity. Qed.
